@@ -34,6 +34,13 @@ instructions with operations of length {3,12,23,24,40}, end comment).  Families:
      #UDGTABLE} x flag {none, <nowrap>, <wrapalign>} x every row / item text length 1..4*(width-2)+1 (more than four
      full-width lines) x line width {40,79,120} x 1 of the 4 positions D / N (start, mid-block) / E, rotating with the
      length (thorough: all 4, and 2 word styles)   (ctl; asm and html at lengths {1,30,110}: the flag must be ignored)
+  X  words that begin or end with a character the skool syntax uses as a marker (. .. ...x .5 x. ;x x; *x x* {x x{ }x x} #x x# @x) x source line layout:
+     'layouts': the word in the middle / at the start / at the end of a short text x EVERY way of splitting the text into
+     source lines (so the word is first on a continuation line, last on a line, alone on a line, ...) x every comment
+     position (title, description, register description with '; .' continuation lines, start / mid-block / end comment,
+     comment of one instruction with continuation lines, comment of a two-instruction group);
+     'widths': a sentence of all the marker words (every rotation) in all positions at once, the source wrapped at
+     every width 6..40;  'texts': word x text x position for control files (one-line source)      (asm, html; ctl)
   N  line widths 31 and 24 (narrower than the longest word, so that one unbreakable word
      cannot fit in any comment position)                                (asm)
   H  a smaller length sweep for the entry pages                         (html)
@@ -333,6 +340,103 @@ def flagged_row_lines(e, line_width):
     return None
 
 
+# ---- family X: words that begin or end with the characters the skool syntax uses as markers x source line layout
+# '.' separates paragraphs / continues a register description, ';' starts a comment, '*' marks an entry point (and is the default
+# bullet), '{' '}' delimit multi-instruction comments, '#' starts a macro (followed by capital letters only), '@' starts a directive
+MARKER_WORDS = ('.', '..', '...x', '.5', 'x.', ';x', 'x;', '*x', 'x*', '{x', 'x{', '}x', 'x}', '#x', 'x#', '@x')
+MARKER_POS = ('title', 'desc', 'reg', 'start', 'mid', 'end', 'icomment1', 'icomment2')
+PARAGRAPH_POS = ('desc', 'start', 'mid', 'end')
+SRC_WIDTHS = tuple(range(6, 41))        # source wrap widths of the sweep (part 'widths')
+
+
+def marker_texts(m):
+    """The marker word in the middle, at the start and at the end of a short text: (words, index of the marker)."""
+    return ((['a', 'bb', m, 'w', 'a'], 2), ([m, 'a', 'bb'], 0), (['a', 'bb', m], 2))
+
+
+def line_layouts(nwords):
+    """Every way of splitting nwords words into source lines: every subset of the nwords-1 gaps between words."""
+    for k in range(nwords):
+        for c in itertools.combinations(range(1, nwords), k):
+            yield list(c)
+
+
+def entry_marked(tag, texts, lay_of):
+    """An entry whose annotation at each position named in `texts` is that word list, laid out in the source as lay_of says
+    (an explicit list of line starts or a wrap width); the other annotations are plain."""
+    plain = ['a', 'bb']
+    t = lambda pos: texts.get(pos, plain)
+    lay = {}
+    for pos, key in (('title', ('title', 0)), ('desc', ('desc', 0)), ('reg', ('reg', 0)), ('start', ('start', 1)), ('mid', ('mid', 1, 0)), ('end', ('end', 0))):
+        if pos in texts:
+            lay[key] = lay_of
+    g1 = M.Group((12,), t('icomment1'), mid=[plain, t('start')], lay=lay_of if 'icomment1' in texts else None)
+    g2 = M.Group((3, 24), t('icomment2'), mid=[t('mid')], lay=lay_of if 'icomment2' in texts else None)
+    return M.Entry(tag, t('title'), desc=[t('desc'), plain], regs=[('plain', '', 'A', t('reg')), ('plain', '', 'BC', plain)],
+                   groups=[g1, g2], end=[t('end'), plain], lay=lay)
+
+
+def marker_layout_entries():
+    """Part 'layouts': marker word x text (marker in the middle / first / last) x every line layout x comment position."""
+    for m in MARKER_WORDS:
+        for words, idx in marker_texts(m):
+            for breaks in line_layouts(len(words)):
+                lines = M.lay_lines(words, breaks, 0)
+                for pos in MARKER_POS:
+                    if pos in PARAGRAPH_POS and '.' in lines:
+                        continue        # a comment line containing a dot on its own is the paragraph separator, not a word
+                    tag = {'marker': m, 'text': ' '.join(words), 'breaks': breaks, 'pos': pos}
+                    yield entry_marked(tag, {pos: words}, breaks)
+
+
+def marker_sentence(r):
+    """Every marker word once, each followed by a plain word (so that the word '.' is never alone on a line at a wrap
+    width >= 3), starting with the r-th marker word."""
+    plain = ('a', 'bb', 'w')
+    words = []
+    for i in range(len(MARKER_WORDS)):
+        k = (i + r) % len(MARKER_WORDS)
+        words += [MARKER_WORDS[k], plain[k % 3]]
+    return words
+
+
+def marker_width_entries(lo, hi):
+    """Part 'widths': every rotation (by marker words) of the sentence of all marker words, in every comment position at once (each position
+    with its own rotation), the source greedy-wrapped at every width in SRC_WIDTHS[lo:hi]."""
+    n = len(MARKER_WORDS)
+    for w in SRC_WIDTHS[lo:hi]:
+        for r in range(n):
+            texts = {pos: marker_sentence(r + 5 * k) for k, pos in enumerate(MARKER_POS)}
+            for pos in PARAGRAPH_POS:
+                assert '.' not in M.lay_lines(texts[pos], w, 0)
+            yield entry_marked({'marker_rotation': r, 'src_width': w}, texts, w)
+
+
+def marker_text_entries():
+    """Part 'texts' (control files: the source is one line, so there is no layout): marker word x text x comment position."""
+    for m in MARKER_WORDS:
+        for words, idx in marker_texts(m):
+            for pos in MARKER_POS:
+                yield entry_marked({'marker': m, 'text': ' '.join(words), 'pos': pos}, {pos: words}, None)
+
+
+def marker_line_places(e):
+    """Generator-side: where the marker word of a part-'layouts' entry stands in its source line."""
+    words = e.tag['text'].split()
+    idx = words.index(e.tag['marker'])
+    br = set(e.tag['breaks'])
+    first = idx in br
+    last = idx + 1 in br or idx == len(words) - 1
+    out = []
+    if first:
+        out.append('first_on_continuation_line')
+    if last and len(br) > 0:
+        out.append('last_on_line')
+    if (first or idx == 0) and last and len(br) > 0:
+        out.append('alone_on_line')
+    return out
+
+
 # ---- family P: register sections with every kind of prefix
 # "If a register's prefix begins with the letter 'O', it is regarded as an output value; if it begins with any other
 # letter, it is regarded as an input value. If a register has no prefix, it will be placed in the same table as the
@@ -426,6 +530,13 @@ def doc_entries(key, seed, seam, stats=None):
                 for flag in BLOCK_FLAGS:
                     for pos in flag_positions(length + seed, key['npos']):
                         ents.append(entry_flag(kind, length, key['style'], flag, pos, salt))
+    elif fam == 'X':
+        if key['part'] == 'layouts':
+            ents = list(marker_layout_entries())
+        elif key['part'] == 'widths':
+            ents = list(marker_width_entries(key['lo'], key['hi']))
+        else:
+            ents = list(marker_text_entries())
     elif fam == 'P':
         for seq in prefix_sections(key['k']):
             for form in ('plain', 'delim'):
@@ -950,6 +1061,19 @@ def work_list(tier, seed):
         for w in WIDTHS3:
             work.append(('asm', key, dict(ASM_DEFAULT, line_width=w)))
         work.append(('html', key, {}))
+    # X: marker words x source line layout (asm at a wide and a narrow line width; html), and x output width for control files
+    for key in chunked({'fam': 'X', 'part': 'layouts'}, seed, 'asm'):
+        for w in (79, 40):
+            work.append(('asm', key, dict(ASM_DEFAULT, line_width=w)))
+        work.append(('html', key, {}))
+    for lo in range(len(SRC_WIDTHS)):
+        key = {'fam': 'X', 'part': 'widths', 'lo': lo, 'hi': lo + 1}
+        for w in (79, 40):
+            work.append(('asm', key, dict(ASM_DEFAULT, line_width=w)))
+        work.append(('html', key, {}))
+    for key in chunked({'fam': 'X', 'part': 'texts'}, seed, 'ctl'):
+        for w in WIDTHS3:
+            work.append(('ctl', key, dict(CTL_DEFAULT, line_width=w)))
     # L: length sweep
     mod = 6 if quick else 2
     for w in WIDTHS3:
@@ -990,7 +1114,7 @@ def _pos_name(pos):
 def _tags(seam, cfg, e, p):
     t = {'seam': seam, 'kind': p.kind, 'position': _pos_name(p.pos), 'line_width': cfg.get('line_width')}
     if e is not None:
-        for k in ('style', 'L', 'layout', 'n', 'block', 'pos', 'ctx', 'brace_text', 'brace_form', 'bullet', 'prefixes', 'form', 'flag'):
+        for k in ('style', 'L', 'layout', 'n', 'block', 'pos', 'ctx', 'brace_text', 'brace_form', 'bullet', 'prefixes', 'form', 'flag', 'marker', 'text', 'breaks', 'marker_rotation', 'src_width'):
             if k in e.tag:
                 t[k] = e.tag[k]
     for k, v in cfg.items():
@@ -1028,6 +1152,13 @@ def _shard(shard, nshards, tier, seed):
                 stats.counters['ctl_block_kind_' + e.tag['block']] += 1
                 if flag == 'nowrap' and rl > cfg['line_width'] - 2:
                     stats.counters['ctl_nowrap_row_longer_than_line'] += 1
+            if key['fam'] == 'X' and key['part'] == 'layouts':
+                kind = 'register' if e.tag['pos'] == 'reg' else 'instruction_comment' if e.tag['pos'].startswith('icomment') else \
+                    'title' if e.tag['pos'] == 'title' else 'paragraph'
+                for place in marker_line_places(e):
+                    stats.counters['src_marker_%s_%s' % (place, kind)] += 1
+                    if e.tag['marker'].startswith('.'):
+                        stats.counters['src_dot_word_%s_%s' % (place, kind)] += 1
             if key['fam'] == 'P':
                 cur = ''
                 for pfx in e.tag['prefixes']:
@@ -1125,6 +1256,9 @@ def run(tier, seed):
               'F: block kinds {} x wrap flag {} x every row/item text length 1..4*(width-2)+1 x line width {{40,79,120}} x {} of the 4 positions '
               'desc/start/mid/end (rotating with the length) x word styles {} (ctl; asm x 3 widths and html at lengths [1, 30, 110] x 4 positions, '
               'without UDGTABLE). '
+              'X: marker words {} x texts (word in the middle of 5 words / first of 3 / last of 3) x every subset of the gaps between words as '
+              'source line breaks x positions {} (asm x line width {{79,40}}; html); every rotation of the sentence of all marker words in all '
+              'positions x source wrap width {}..{} (asm x {{79,40}}; html); marker word x text x position (ctl x 3 widths). '
               'N: 12 entries x line width {{31,24}} (asm). H: 3 styles x sentence lengths 0..{} x one in {} shapes, rotating (html).'.format(
                   3 * len(W_LENGTHS) * (4 if quick else 12), list(W_LENGTHS), 4 if quick else 12,
                   'every 6th (rotating with the length)' if quick else 'every 2nd (rotating with the length)', len(SHAPES),
@@ -1133,6 +1267,7 @@ def run(tier, seed):
                   3 if quick else 4, list(PREFIX_ALPHABET), list(BULLET_PROPS), list(BULLET_PARAMS), 2 if quick else 7,
                   ['dense'] if quick else ['dense', 'mixed'], 112 if quick else 240, 1 if quick else 7,
                   list(FLAG_KINDS), list(BLOCK_FLAGS), 1 if quick else 4, ['dense'] if quick else ['dense', 'mixed'],
+                  list(MARKER_WORDS), list(MARKER_POS), SRC_WIDTHS[0], SRC_WIDTHS[-1],
                   159 if quick else 239, 12 if quick else 3),
         assumptions=[
             'brace rules ("Braces in comments"): the skool source written for skool2asm/skool2html wraps a group comment exactly as sna2skool does '
@@ -1166,8 +1301,14 @@ def run(tier, seed):
             'register prefixes consist of letters; a prefix whose first letter is O or o puts the register (and the following registers without a '
             'prefix) in the output table of the entry page, any other letter in the input table; the expected page lists the input registers '
             'before the output registers, each group in source order',
-            'words contain no digits, no "#", no "|" and never start with "." or "*" (so they cannot be taken for addresses, macros, table borders, '
-            'paragraph separators or bullets)',
+            'outside family X words contain no digits, no "#", no "|" and never start with "." or "*"; family X adds the marker words: "#" is '
+            'followed by a lower-case letter or nothing (a macro is "#" + capital letters), no word contains "|" or starts with "+-" (table '
+            'borders in ASM output), and the only digit is the 5 of ".5" (not an address)',
+            'source layouts (family X): "paragraphs ... must be separated by a comment line containing a dot on its own", so a layout that puts '
+            'the word "." alone on a source line of a description / start / mid-block / end paragraph is not generated (it is allowed in titles, '
+            'register descriptions - where the line reads "; . ." - and instruction comments); the second and subsequent source lines of a register '
+            'description start with a dot and a space; in a two-instruction group the first source line of the comment belongs to the first '
+            'instruction and the rest to the second',
         ],
         required_guards=['runs_asm', 'runs_ctl', 'runs_html', 'group_size_1', 'group_size_2', 'group_size_3', 'group_size_4',
                          'group_comment_with_braces', 'brace_text_needs_extra_opening_braces', 'fam_W_asm', 'fam_W_ctl', 'fam_L_asm', 'fam_L_ctl',
@@ -1176,6 +1317,9 @@ def run(tier, seed):
                          'fam_F_ctl', 'fam_F_asm', 'fam_F_html', 'ctl_block_kind_L', 'ctl_block_kind_T', 'ctl_block_kind_Tf', 'ctl_block_kind_G',
                          'ctl_nowrap_row_longer_than_line', 'ctl_overlong_nowrap_row'] + [
                              'ctl_block_%s_row_of_%s_full_width_lines' % (f, n) for f in ('default', 'nowrap', 'wrapalign') for n in (1, 2, 3, '4_or_more')] + [
+                         'fam_X_asm', 'fam_X_html', 'fam_X_ctl'] + [
+                             'src_%s_%s_%s' % (a, b, c) for a in ('marker', 'dot_word') for b in ('first_on_continuation_line', 'last_on_line', 'alone_on_line')
+                             for c in ('register', 'instruction_comment', 'title', 'paragraph')] + [
                          'fam_P_asm', 'fam_P_ctl', 'fam_P_html', 'fam_U_asm', 'fam_U_html',
                          'html_register_prefix_other_letter', 'html_register_without_prefix_after_other_letter', 'html_register_prefix_output',
                          'asm_register_prefix_other_letter', 'ctl_register_prefix_other_letter',
